@@ -317,6 +317,9 @@ class ForceMatrix:
                 
                 if np.any([x < 0 for x in xres[:-1]]) and not kwargs.get("allow_negatives", True):
                     raise ValueError("Negative values detected")
+                if xres[-1] < 0 and not np.any([x < 0 for x in xres[:-1]]):
+                    # non-negative tensions with a negative multiplier are not the non-negative least-squares optimum
+                    raise ValueError("Negative multiplier detected")
         except (ValueError, np.linalg.LinAlgError, TypeError) as e:
             warnings.warn(f"Numerically solving due to the following error: {e}")
             xres, _ = scop.nnls(mprime, b, maxiter=kwargs.get("nnls_max_iter"))
